@@ -59,8 +59,10 @@ fork outputs contain no `None`, ports are nodes of the circuit (plus model bookk
   step (also after `substitute` / `resolve_tlib_cells` / `remove_dangling_nodes`); this, not the model, decides violations.
   D30 (fixed): `substitute` with an open output pin left a `None` gap in a copied fork (`exGap` below is that use).
 * Outside the theorems: what Python does outside well-formed use (explicit pin on an occupied position, removing a node
-  that still has lines or is a port, `eliminate_1to1_forks` on a 1:1 fork without / with several input lines) — probed by
-  the harness and recorded as notes. -/
+  that still has lines or is a port, `eliminate_1to1_forks` on a 1:1 fork without / with several input lines, `substitute`
+  with a feed-through implementation — an output port driven through forks only by an input port, which makes a PORT the
+  designated cell and corrupts the graph —, `substitute` of a cell with a line from its own output to its own input) —
+  probed by the harness and recorded as notes. -/
 namespace KV.C09
 open KV.CircObj
 
